@@ -144,7 +144,7 @@ Definition model_verdict (c : string) (a : shape) (q : query) : option verdict :
         match lib_expand_check a sizes with Raise => Some VRaise | Ok _ => None end
       else None
   | QCat pos others dim =>
-      Some (if is_ok (lib_cat_check_args (insert_at pos a others) dim) then VOkAny else VRaise)
+      Some (if is_ok (lib_cat_init (insert_at pos a others) dim) then VOkAny else VRaise)
   | QGetitem idx =>
       if check_size_of c && negb (is_ok (lib_compute_getitem_size true a (map to_item idx))) then Some VRaise else None
   end.
